@@ -2,13 +2,13 @@ import Chewing.Proofs.CliQuoted
 /-!
 The malformed-source stream: exactly which lines `parse_line` accepts (hence which ones the compiler
 reports).  A line is accepted iff
-1. it has a non-empty delimiter-separated field (the phrase, after stripping quotes — possibly empty),
-2. the phrase is one character long and `--keep-word-freq` is off, **or** there is a second such field that
-   strips to a `u32`,
-3. every syllable field — the separator-split fields after the first two, stripped, the empty ones dropped, up
-   to the first one starting with `#` — is a Bopomofo syllable in order.
-Nothing else is looked at: not the number of syllables (F27 `no-syllables`, `length-mismatch`), not whether
-the phrase is empty (`empty-phrase`), not the frequency of a one-character phrase (`word-freq-unchecked`).
+1. it has two non-empty delimiter-separated fields,
+2. the first strips to a non-empty phrase without comma / whitespace,
+3. the second strips to a `u32` (looked at for every phrase, with or without `--keep-word-freq`),
+4. every syllable field — the separator-split fields after the first two, stripped, the empty ones dropped, up
+   to the first one starting with `#` — is a Bopomofo syllable in order,
+5. there is at least one syllable field, and as many as the phrase has characters.
+(2, 3 for one-character phrases and 5 are the fixes of F27.)
 -/
 namespace Chewing.Cli
 open Chewing Gen List
@@ -74,53 +74,80 @@ theorem parseSylsN_error_cause : ∀ (ts : List Text) (e : LineErr), parseSylsN 
           cases h
           exact parseSylsN_error_cause ts _ hr
 
-theorem parseFreq_ok_iff (keep : Bool) (p f0 : Text) (fs : List Text) :
-    (∃ n, parseFreq keep p (f0 :: fs) = .ok n) ↔
-      (p.length = 1 ∧ keep = false) ∨ ∃ f1, fs.head? = some f1 ∧ (parseU32 (trimQ f1)).isSome = true := by
-  unfold parseFreq
-  by_cases hw : (p.length == 1 && !keep) = true
-  · have : p.length = 1 ∧ keep = false := by simpa using hw
-    simp [hw, this]
-  · have hn : ¬ (p.length = 1 ∧ keep = false) := by simpa using hw
-    simp only [hw, hn, false_or]
-    cases fs with
-    | nil => simp
-    | cons f1 rest =>
-      simp only [List.getElem?_cons_succ, List.getElem?_cons_zero, List.head?_cons, Option.some.injEq, exists_eq_left']
-      cases hu : parseU32 (trimQ f1) with
-      | none => simp
-      | some n => simp
+/-- the syllable loop yields one syllable per field -/
+theorem parseSylsN_length : ∀ (ts : List Text) (v : List Nat), parseSylsN ts = .ok v →
+    v.length = (ts.takeWhile (fun s => s.head? != some cliComment)).length
+  | [], v, h => by simp [parseSylsN] at h; subst h; rfl
+  | s :: ts, v, h => by
+    unfold parseSylsN at h
+    by_cases hc : (s.head? == some cliComment) = true
+    · have : (s.head? != some cliComment) = false := by simp [bne, hc]
+      simp only [hc, if_true] at h
+      have := Except.ok.inj h
+      subst this
+      simp [List.takeWhile, this]
+    · have hne : (s.head? != some cliComment) = true := by simp [bne, hc]
+      simp only [hc] at h
+      cases hp : Chewing.parse s with
+      | error be => rw [hp] at h; cases be <;> cases h
+      | ok x =>
+        rw [hp] at h
+        simp only at h
+        cases hr : parseSylsN ts with
+        | error e => rw [hr] at h; cases h
+        | ok vs =>
+          rw [hr] at h
+          have := Except.ok.inj h
+          subst this
+          simp [List.takeWhile, hne, parseSylsN_length ts vs hr]
 
-/-- **accepted_iff** — exactly the lines `parse_line` accepts -/
+theorem parseSyls_length {l : Text} {syls : List Nat} (h : parseSyls ((tokens sylSep l).drop 2) = .ok syls) :
+    syls.length = (sylFields l).length := by
+  rw [parseSyls_norm] at h
+  exact parseSylsN_length _ _ h
+
+theorem parseFreq_ok_iff (keep : Bool) (p f0 : Text) (fs : List Text) :
+    (∃ n, parseFreq keep p (f0 :: fs) = .ok n) ↔ ∃ f1, fs.head? = some f1 ∧ (parseU32 (trimQ f1)).isSome = true := by
+  constructor
+  · rintro ⟨n, hn⟩
+    obtain ⟨f1, m, h1, h2, _⟩ := parseFreq_ok_iff'.mp hn
+    exact ⟨f1, h1, by simp [h2]⟩
+  · rintro ⟨f1, h1, h2⟩
+    obtain ⟨m, hm⟩ := Option.isSome_iff_exists.mp h2
+    exact ⟨_, parseFreq_ok_iff'.mpr ⟨f1, m, h1, hm, rfl⟩⟩
+
+/-- **accepted_iff** — exactly the lines `parse_line` accepts (the same with and without `--keep-word-freq`) -/
 theorem accepted_iff (d : Nat) (keep : Bool) (l : Text) :
     (∃ r, parseLine d keep l = .ok r) ↔
-      ∃ f0 fs, tokens (· == d) l = f0 :: fs ∧
-        (((trimQ f0).length = 1 ∧ keep = false) ∨ ∃ f1, fs.head? = some f1 ∧ (parseU32 (trimQ f1)).isSome = true) ∧
-        ∀ s ∈ sylFields l, ∃ c, Chewing.parse s = .ok c := by
-  unfold parseLine sylFields
-  cases ht : tokens (· == d) l with
-  | nil => simp
-  | cons f0 fs =>
-    simp only
-    rw [← parseSylsN_ok_iff, ← parseSyls_norm]
-    constructor
-    · rintro ⟨r, hr⟩
-      refine ⟨f0, fs, rfl, ?_, ?_⟩
-      · apply (parseFreq_ok_iff keep (trimQ f0) f0 fs).mp
-        cases hf : parseFreq keep (trimQ f0) (f0 :: fs) with
-        | ok n => exact ⟨n, rfl⟩
-        | error e => rw [hf] at hr; cases hr
-      · cases hf : parseFreq keep (trimQ f0) (f0 :: fs) with
-        | error e => rw [hf] at hr; cases hr
-        | ok n =>
-          rw [hf] at hr
-          cases hs : parseSyls ((tokens sylSep l).drop 2) with
-          | ok v => exact ⟨v, rfl⟩
-          | error e => rw [hs] at hr; cases hr
-    · rintro ⟨g0, gs, hg, hfreq, v, hv⟩
-      obtain ⟨rfl, rfl⟩ := List.cons.inj hg
-      obtain ⟨n, hn⟩ := (parseFreq_ok_iff keep (trimQ f0) f0 fs).mpr hfreq
-      exact ⟨_, by rw [hn, hv]⟩
+      ∃ f0 f1 fs, tokens (· == d) l = f0 :: f1 :: fs ∧
+        trimQ f0 ≠ [] ∧ (∀ c ∈ trimQ f0, sylSep c = false) ∧ (parseU32 (trimQ f1)).isSome = true ∧
+        (∀ s ∈ sylFields l, ∃ c, Chewing.parse s = .ok c) ∧
+        sylFields l ≠ [] ∧ (sylFields l).length = (trimQ f0).length := by
+  constructor
+  · rintro ⟨r, hr⟩
+    obtain ⟨f0, fs, n, syls, ht, hne, hsep, hf, hs, hsne, hlen, _⟩ := parseLine_ok_iff.mp hr
+    obtain ⟨f1, hf1, hu⟩ := (parseFreq_ok_iff keep (trimQ f0) f0 fs).mp ⟨n, hf⟩
+    cases fs with
+    | nil => simp at hf1
+    | cons g1 rest =>
+      simp at hf1; subst hf1
+      have hL := parseSyls_length hs
+      refine ⟨f0, g1, rest, ht, hne, hsep, hu, ?_, ?_, by rw [← hL]; exact hlen⟩
+      · unfold sylFields
+        apply (parseSylsN_ok_iff _).mp
+        exact ⟨syls, by rw [← parseSyls_norm]; exact hs⟩
+      · intro e
+        rw [e] at hL
+        exact hsne (List.eq_nil_of_length_eq_zero hL)
+  · rintro ⟨f0, f1, fs, ht, hne, hsep, hu, hall, hsne, hlen⟩
+    obtain ⟨n, hn⟩ := (parseFreq_ok_iff keep (trimQ f0) f0 (f1 :: fs)).mpr ⟨f1, rfl, hu⟩
+    obtain ⟨syls, hsy⟩ := (parseSylsN_ok_iff _).mpr hall
+    rw [← parseSyls_norm] at hsy
+    have hL := parseSyls_length hsy
+    refine ⟨_, parseLine_ok_iff.mpr ⟨f0, f1 :: fs, n, syls, ht, hne, hsep, hn, hsy, ?_, by rw [hL]; exact hlen, rfl⟩⟩
+    intro e
+    rw [e] at hL
+    exact hsne (List.eq_nil_of_length_eq_zero hL.symm)
 
 /-- a line is either accepted or rejected with one cause (the function is total) -/
 theorem rejected_iff_not_accepted (d : Nat) (keep : Bool) (l : Text) :
@@ -129,13 +156,22 @@ theorem rejected_iff_not_accepted (d : Nat) (keep : Bool) (l : Text) :
   | ok r => simp
   | error e => simp
 
+/-- acceptance does not depend on `--keep-word-freq` (since the fix of F27 `word-freq-unchecked`) -/
+theorem accepted_keep_irrelevant (d : Nat) (k k' : Bool) (l : Text) :
+    (∃ r, parseLine d k l = .ok r) ↔ ∃ r, parseLine d k' l = .ok r := by
+  rw [accepted_iff, accepted_iff]
+
 /-- why a rejected line is rejected -/
 theorem rejected_cause (d : Nat) (keep : Bool) (l : Text) (e : LineErr) (h : parseLine d keep l = .error e) :
     (e = .noPhrase → tokens (· == d) l = []) ∧
+    (e = .emptyPhrase → ∃ f0 fs, tokens (· == d) l = f0 :: fs ∧ trimQ f0 = []) ∧
+    (e = .phraseSep → ∃ f0 fs, tokens (· == d) l = f0 :: fs ∧ ∃ c ∈ trimQ f0, sylSep c = true) ∧
     (e = .noFreq → ∃ f0, tokens (· == d) l = [f0]) ∧
     (e = .badFreq → ∃ f0 f1 fs, tokens (· == d) l = f0 :: f1 :: fs ∧ parseU32 (trimQ f1) = none) ∧
-    (e = .bopomofo ∨ e = .syllable → ∃ s ∈ sylFields l, ∃ e', Chewing.parse s = .error e') := by
-  have hacc := accepted_iff d keep l
+    (e = .bopomofo ∨ e = .syllable → ∃ s ∈ sylFields l, ∃ e', Chewing.parse s = .error e') ∧
+    (e = .noSyllables → sylFields l = []) ∧
+    (e = .lengthMismatch → ∃ f0 fs, tokens (· == d) l = f0 :: fs ∧ (sylFields l).length ≠ (trimQ f0).length) ∧
+    e ≠ .invalidUtf8 := by
   unfold parseLine at h
   cases ht : tokens (· == d) l with
   | nil =>
@@ -144,56 +180,82 @@ theorem rejected_cause (d : Nat) (keep : Bool) (l : Text) (e : LineErr) (h : par
     simp
   | cons f0 fs =>
     rw [ht] at h
-    simp only at h
-    cases hf : parseFreq keep (trimQ f0) (f0 :: fs) with
-    | error e' =>
-      rw [hf] at h
+    simp only [phraseSep_eq] at h
+    by_cases he : (trimQ f0).isEmpty = true
+    · simp only [he, if_true] at h
       cases h
-      unfold parseFreq at hf
-      split at hf
-      · cases hf
-      · cases fs with
-        | nil =>
-          simp at hf
-          subst hf
-          simp
-        | cons f1 rest =>
-          simp only [List.getElem?_cons_succ, List.getElem?_cons_zero] at hf
-          cases hu : parseU32 (trimQ f1) with
-          | some n => rw [hu] at hf; cases hf
-          | none =>
-            rw [hu] at hf
-            cases hf
-            exact ⟨fun h => (by cases h), fun h => (by cases h), fun _ => ⟨f0, f1, rest, rfl, hu⟩,
-              fun h => (by rcases h with h | h <;> cases h)⟩
-    | ok n =>
-      rw [hf] at h
-      cases hs : parseSyls ((tokens sylSep l).drop 2) with
-      | ok v => rw [hs] at h; cases h
-      | error e' =>
-        rw [hs] at h
+      have : trimQ f0 = [] := List.isEmpty_iff.mp he
+      simp [this]
+    · simp only [he, Bool.false_eq_true, if_false] at h
+      by_cases hs : (trimQ f0).any sylSep = true
+      · simp only [hs, if_true] at h
         cases h
-        -- the syllable loop failed: some syllable field does not parse
-        have hno : ¬ ∀ s ∈ sylFields l, ∃ c, Chewing.parse s = .ok c := by
-          intro hall
-          unfold sylFields at hall
-          obtain ⟨v, hv⟩ := (parseSylsN_ok_iff _).mpr hall
-          rw [← parseSyls_norm, hs] at hv
-          cases hv
-        have hex : ∃ s ∈ sylFields l, ∃ e', Chewing.parse s = .error e' := by
-          apply Classical.byContradiction
-          intro hn
-          apply hno
-          intro s hs'
-          cases hp : Chewing.parse s with
-          | ok c => exact ⟨c, rfl⟩
-          | error e'' => exact absurd ⟨s, hs', e'', hp⟩ hn
-        have hsyl : e = .bopomofo ∨ e = .syllable := by
-          rw [parseSyls_norm] at hs
-          exact parseSylsN_error_cause _ _ hs
-        refine ⟨?_, ?_, ?_, fun _ => hex⟩
-        · intro he; rcases hsyl with h1 | h1 <;> rw [h1] at he <;> cases he
-        · intro he; rcases hsyl with h1 | h1 <;> rw [h1] at he <;> cases he
-        · intro he; rcases hsyl with h1 | h1 <;> rw [h1] at he <;> cases he
+        obtain ⟨c, hc, hcs⟩ := List.any_eq_true.mp hs
+        simp
+        exact ⟨c, hc, hcs⟩
+      · simp only [hs, Bool.false_eq_true, if_false] at h
+        cases hf : parseFreq keep (trimQ f0) (f0 :: fs) with
+        | error e' =>
+          rw [hf] at h
+          cases h
+          unfold parseFreq at hf
+          cases fs with
+          | nil =>
+            simp at hf
+            subst hf
+            simp
+          | cons f1 rest =>
+            simp only [List.getElem?_cons_succ, List.getElem?_cons_zero] at hf
+            cases hu : parseU32 (trimQ f1) with
+            | some n => rw [hu] at hf; cases hf
+            | none =>
+              rw [hu] at hf
+              cases hf
+              simp
+              exact ⟨f0, f1, ⟨rfl, rfl⟩, hu⟩
+        | ok n =>
+          rw [hf] at h
+          cases hsy : parseSyls ((tokens sylSep l).drop 2) with
+          | error e' =>
+            rw [hsy] at h
+            cases h
+            have hno : ¬ ∀ s ∈ sylFields l, ∃ c, Chewing.parse s = .ok c := by
+              intro hall
+              unfold sylFields at hall
+              obtain ⟨v, hv⟩ := (parseSylsN_ok_iff _).mpr hall
+              rw [← parseSyls_norm, hsy] at hv
+              cases hv
+            have hex : ∃ s ∈ sylFields l, ∃ e', Chewing.parse s = .error e' := by
+              apply Classical.byContradiction
+              intro hn
+              apply hno
+              intro s hs'
+              cases hp : Chewing.parse s with
+              | ok c => exact ⟨c, rfl⟩
+              | error e'' => exact absurd ⟨s, hs', e'', hp⟩ hn
+            have hsyl : e = .bopomofo ∨ e = .syllable := by
+              rw [parseSyls_norm] at hsy
+              exact parseSylsN_error_cause _ _ hsy
+            rcases hsyl with h1 | h1 <;> (subst h1; simp; exact hex)
+          | ok syls =>
+            rw [hsy] at h
+            simp only at h
+            have hL := parseSyls_length hsy
+            by_cases h0 : syls.isEmpty = true
+            · simp only [h0, if_true] at h
+              cases h
+              have : syls = [] := List.isEmpty_iff.mp h0
+              rw [this] at hL
+              simp
+              exact List.eq_nil_of_length_eq_zero hL.symm
+            · simp only [h0, Bool.false_eq_true, if_false] at h
+              by_cases hl : (syls.length != (trimQ f0).length) = true
+              · simp only [hl, if_true] at h
+                cases h
+                simp
+                rw [← hL]
+                simpa using hl
+              · simp only [hl, Bool.false_eq_true, if_false] at h
+                cases h
 
 end Chewing.Cli
